@@ -71,14 +71,14 @@ class C16(Check):
             qs = []
             for u in unis:
                 for rf in ("tok", "repr", "dup"):
-                    for s in ("-", "0", "2", "4"):
+                    for s in ("-", "0", "1", "2", "4"):
                         qs.append("plain V%d %s %s" % (u, rf, s))
             # a render function that reads the vertices; what it reads changes between renders
             nv = unis[0]
             for _ in range(3):
                 qs.append("sattr V%d 0 %d" % (rng.randrange(nv), rng.choice([0, 1, 2, 3, 5])))
                 for u in unis[:3]:
-                    for s in ("-", "2"):
+                    for s in ("-", "1", "2"):
                         qs.append("plain V%d attr %s" % (u, s))
             yield run(real, lines + qs)
 
@@ -93,7 +93,7 @@ class C16(Check):
         if len(u.vertices) == 0:
             return None if out == "ok none" else "empty universe rendered as %r" % out
         code = lambda x: 0 if x is None else real.vname(x) + 1  # noqa: E731
-        key = None if t[3] == "-" else (lambda x, k=int(t[3]): (code(x) * (k + 1)) % 7)
+        key = None if t[3] == "-" else (lambda x, k=int(t[3]): (code(x) * (k + 1)) % (3 if k == 1 else 7))
         pre_ = "r" if t[2] == "repr" else "v"
         if t[2] == "attr":
             r = lambda x: "none" if x is None else ("a%d" % real.valclass(x.a0) if hasattr(x, "a0") else "a-")  # noqa: E731
@@ -219,7 +219,7 @@ class C15(Check):
 
     def batches(self, tier, rng, real):
         for lines, unis in worlds(tier, rng, real, ["D", "U", "DD", "UU", "X"]):
-            qs = ["pyvis V%d %s" % (u, re_) for u in unis for re_ in ("-", "e")]
+            qs = ["%s V%d %s" % (pv, u, re_) for u in unis for re_ in ("-", "e") for pv in ("pyvis", "pyvisd", "pyvisc")]
             yield run(real, lines + qs)
 
     def search(self, tier, rng, real, v):
@@ -232,7 +232,7 @@ class C15(Check):
 
     def oracle(self, real, line, out, pre):
         t = line.split()
-        if t[0] != "pyvis":
+        if t[0] not in ("pyvis", "pyvisd", "pyvisc"):
             return None
         if [set(vars(v)) for v in real.V] != pre:
             return "%s changed the attribute set of a vertex" % line
